@@ -18,17 +18,21 @@ def flagTokB (fl : Tok) : Bool := !hasEq fl && flagTokShape fl
 def namedB (reg : List Ctx) (t : Tok) : Bool :=
   (reg.find? (fun c => c.name = some t || c.aliases.contains t)).isSome
 
-def optValueOKb (reg : List Ctx) (c : Ctx) (a : Arg) (v : Tok) : Bool :=
-  !a.spec.optional ||
-    ((!isFlag v || ((assoc? (beforeEq v) c.flags).isNone && (assoc? (v.take 2) c.flags).isNone)) &&
-      c.missingPositional.isEmpty && a.raw.isNone && !namedB reg v)
+def notCoreFlagB (ic : Option Ctx) (v : Tok) : Bool :=
+  match ic with | none => true | some c0 => (assoc? v c0.flags).isNone
 
-def valFlagOKb (reg : List Ctx) (c : Ctx) (fl : Tok) (i : Nat) (v : Tok) : Bool :=
+def optValueOKb (ic : Option Ctx) (reg : List Ctx) (c : Ctx) (a : Arg) (v : Tok) : Bool :=
+  !a.spec.optional ||
+    ((!isFlag v || ((assoc? (beforeEq v) c.flags).isNone && (assoc? (v.take 2) c.flags).isNone &&
+        notCoreFlagB ic (beforeEq v) && notCoreFlagB ic (v.take 2))) &&
+      notCoreFlagB ic v && c.missingPositional.isEmpty && a.raw.isNone && !namedB reg v)
+
+def valFlagOKb (ic : Option Ctx) (reg : List Ctx) (c : Ctx) (fl : Tok) (i : Nat) (v : Tok) : Bool :=
   match c.args[i]? with
   | none => false
   | some a =>
     decide (assoc? fl c.flags = some i) && a.takesValue && (decide (a.spec.kind = .list) || a.raw.isNone) &&
-    (assoc? v c.flags).isNone && (assoc? v c.inverse).isNone && (a.give v).isSome && optValueOKb reg c a v
+    (assoc? v c.flags).isNone && (assoc? v c.inverse).isNone && (a.give v).isSome && optValueOKb ic reg c a v
 
 def isIntVal : PVal → Bool | .i _ => true | _ => false
 
@@ -42,9 +46,6 @@ def toggleOKb (c : Ctx) (fl : Tok) (i : Nat) : Bool :=
 def togglesOKb : Ctx → List (Char × Nat) → Bool
   | _, [] => true
   | c, p :: r => decide (p.1 ≠ '=') && toggleOKb c ['-', p.1] p.2 && togglesOKb (c.updArg p.2 Arg.seen) r
-
-def notCoreFlagB (ic : Option Ctx) (v : Tok) : Bool :=
-  match ic with | none => true | some c0 => (assoc? v c0.flags).isNone
 
 def inverseOKb (c : Ctx) (nofl : Tok) (i : Nat) : Bool :=
   (assoc? nofl c.flags).isNone &&
@@ -67,9 +68,9 @@ def optBareOKb (c : Ctx) (fl : Tok) (i : Nat) : Bool :=
     decide (a.spec.kind ≠ .list) && c.missingPositional.isEmpty
 
 def Item.okb (ic : Option Ctx) (reg : List Ctx) (c : Ctx) : Item → Bool
-  | .spaced fl v i => unsplitB fl && valFlagOKb reg c fl i v
-  | .eq fl v i => flagTokB fl && valFlagOKb reg c fl i v
-  | .glued x y w i => decide (x ≠ '-') && decide (y ≠ '=') && valFlagOKb reg c ['-', x] i (y :: w)
+  | .spaced fl v i => unsplitB fl && valFlagOKb ic reg c fl i v
+  | .eq fl v i => flagTokB fl && valFlagOKb ic reg c fl i v
+  | .glued x y w i => decide (x ≠ '-') && decide (y ≠ '=') && valFlagOKb ic reg c ['-', x] i (y :: w)
   | .toggle fl i => unsplitB fl && toggleOKb c fl i
   | .inverse nofl i => unsplitB nofl && inverseOKb c nofl i
   | .block x i rest => decide (x ≠ '-') && !rest.isEmpty && togglesOKb c ((x, i) :: rest)
@@ -122,17 +123,25 @@ theorem namedB_false {reg : List Ctx} {t : Tok} (h : namedB reg t = false) :
     reg.find? (fun c => c.name = some t || c.aliases.contains t) = none := by
   simpa [namedB] using h
 
-theorem optValueOKb_sound {reg c a v} (h : optValueOKb reg c a v = true) : OptValueOK reg c a v := by
+theorem notCoreFlagB_sound {ic v} (h : notCoreFlagB ic v = true) : NotCoreFlag ic v := by
+  intro c0 hc0
+  subst hc0
+  simpa [notCoreFlagB] using h
+
+theorem optValueOKb_sound {ic reg c a v} (h : optValueOKb ic reg c a v = true) : OptValueOK ic reg c a v := by
   unfold optValueOKb at h
   by_cases ho : a.spec.optional = true
   · right
     simp only [ho, Bool.not_true, Bool.false_or, Bool.and_eq_true, Bool.or_eq_true, Bool.not_eq_true',
       Option.isNone_iff_eq_none, List.isEmpty_iff] at h
-    obtain ⟨⟨⟨h1, h2⟩, h3⟩, h4⟩ := h
-    exact ⟨h1, h2, h3, namedB_false h4⟩
+    obtain ⟨⟨⟨⟨h1, hc⟩, h2⟩, h3⟩, h4⟩ := h
+    refine ⟨?_, notCoreFlagB_sound hc, h2, h3, namedB_false h4⟩
+    rcases h1 with h1 | ⟨⟨⟨ha, hb⟩, hcb⟩, hct⟩
+    · exact Or.inl h1
+    · exact Or.inr ⟨ha, hb, notCoreFlagB_sound hcb, notCoreFlagB_sound hct⟩
   · left; simpa using ho
 
-theorem valFlagOKb_sound {reg c fl i v} (h : valFlagOKb reg c fl i v = true) : ∃ a a', ValFlagOK reg c fl i v a a' := by
+theorem valFlagOKb_sound {ic reg c fl i v} (h : valFlagOKb ic reg c fl i v = true) : ∃ a a', ValFlagOK ic reg c fl i v a a' := by
   unfold valFlagOKb at h
   cases hai : c.args[i]? with
   | none => simp [hai] at h
@@ -162,11 +171,6 @@ theorem togglesOKb_sound : ∀ {c : Ctx} {ps : List (Char × Nat)}, togglesOKb c
   | c, p :: r, h => by
     simp only [togglesOKb, Bool.and_eq_true, decide_eq_true_eq] at h
     exact ⟨h.1.1, toggleOKb_sound h.1.2, togglesOKb_sound h.2⟩
-
-theorem notCoreFlagB_sound {ic v} (h : notCoreFlagB ic v = true) : NotCoreFlag ic v := by
-  intro c0 hc0
-  subst hc0
-  simpa [notCoreFlagB] using h
 
 theorem Item.okb_sound {ic reg c} : ∀ (it : Item), it.okb ic reg c = true → it.ok ic reg c
   | .spaced fl v i, h => by
